@@ -235,6 +235,7 @@ package objects
 //@   ensures[ledger] ok ==> (forall t Key :: rv(sn.allocatedResource, t) == old(rv(sn.allocatedResource, t)) + (alloc.foreign ? 0 : rv(alloc.allocatedResource, t)) && rv(sn.occupiedResource, t) == old(rv(sn.occupiedResource, t)) + (alloc.foreign ? rv(alloc.allocatedResource, t) : 0))
 //@   ensures[nonneg] ok && !force ==> (forall t Key :: rv(sn.availableResource, t) >= min(0, old(rv(sn.availableResource, t))))
 //@   ensures[listed] ok ==> sn.allocations[alloc.allocationKey] == alloc
+//@   ensures[forced] (force && alloc != nil ==> ok) && (alloc == nil ==> !ok)
 //@   ensures[refused] !ok ==> (forall t Key :: rv(sn.availableResource, t) == old(rv(sn.availableResource, t)) && rv(sn.allocatedResource, t) == old(rv(sn.allocatedResource, t)) && rv(sn.occupiedResource, t) == old(rv(sn.occupiedResource, t)))
 //@   ensures[refusedmap] !ok ==> (forall k string :: sn.allocations[k] == old(sn.allocations[k]))
 //@   ensures[capacity] forall t Key :: rv(sn.totalResource, t) == old(rv(sn.totalResource, t))
@@ -249,3 +250,93 @@ package objects
 //@   ensures[capacity] ok ==> (forall t Key :: has(alloc.allocatedResource, t) ==> rv(alloc.allocatedResource, t) <= posv(old(rv(sn.totalResource, t) - rv(sn.allocatedResource, t) - rv(sn.occupiedResource, t))))
 //@   ensures[nonneg] ok ==> (forall t Key :: rv(sn.availableResource, t) >= min(0, old(rv(sn.availableResource, t))))
 //@   ensures[listed] ok ==> sn.allocations[alloc.allocationKey] == alloc
+
+//@ func (sn *Node) AddAllocation(alloc *Allocation)
+//@   props C01 C03
+//@   requires inv(sn) && (alloc != nil ==> okR(alloc.allocatedResource) && sepN(sn, alloc.allocatedResource))
+//@   assigns sn.allocations[*], sn.occupiedResource, sn.allocatedResource.Resources[*], sn.availableResource.Resources[*]
+//@   ensures inv(sn)
+//@   ensures[booked] alloc != nil ==> (forall t Key :: rv(sn.availableResource, t) == old(rv(sn.availableResource, t)) - rv(alloc.allocatedResource, t))
+
+// capacity change (RM forced): the ledger identity is re-established; returns the delta
+//@ func (sn *Node) SetCapacity(newCapacity *resources.Resource) (delta *resources.Resource)
+//@   props C01
+//@   requires inv(sn) && okR(newCapacity) && sepN(sn, newCapacity) && mag(newCapacity)
+//@   assigns sn.totalResource, sn.availableResource, newCapacity.Resources[*]
+//@   ensures inv(sn)
+//@   ensures[capacity] forall t Key :: rv(sn.totalResource, t) == old(rv(newCapacity, t))
+//@   ensures[delta] delta != nil ==> (forall t Key :: rv(delta, t) == old(rv(newCapacity, t)) - old(rv(sn.totalResource, t)))
+//@   ensures[frame] forall t Key :: rv(sn.allocatedResource, t) == old(rv(sn.allocatedResource, t)) && rv(sn.occupiedResource, t) == old(rv(sn.occupiedResource, t))
+
+//@ func (sn *Node) SetOccupiedResource(occupiedResource *resources.Resource)
+//@   props C01
+//@   requires inv(sn) && okR(occupiedResource) && sepN(sn, occupiedResource) && mag(occupiedResource)
+//@   assigns sn.occupiedResource, sn.availableResource
+//@   ensures inv(sn)
+//@   ensures[occupied] forall t Key :: rv(sn.occupiedResource, t) == rv(occupiedResource, t)
+//@   ensures[frame] forall t Key :: rv(sn.allocatedResource, t) == old(rv(sn.allocatedResource, t)) && rv(sn.totalResource, t) == old(rv(sn.totalResource, t))
+
+//@ func (sn *Node) RemoveAllocation(allocationKey string) (removed *Allocation)
+//@   props C01 C03
+//@   requires inv(sn)
+//@   requires forall k string :: sn.allocations[k] != nil ==> okR(sn.allocations[k].allocatedResource) && sepN(sn, sn.allocations[k].allocatedResource)
+//@   assigns sn.allocations[*], sn.occupiedResource, sn.allocatedResource.Resources[*], sn.availableResource.Resources[*]
+//@   ensures inv(sn)
+//@   ensures[found] removed == old(sn.allocations[allocationKey])
+//@   ensures[unlisted] removed != nil ==> !(allocationKey in sn.allocations)
+//@   ensures[booked] removed != nil ==> (forall t Key :: rv(sn.availableResource, t) == old(rv(sn.availableResource, t)) + rv(removed.allocatedResource, t))
+//@   ensures[ledger] removed != nil ==> (forall t Key :: rv(sn.allocatedResource, t) == old(rv(sn.allocatedResource, t)) - (removed.foreign ? 0 : rv(removed.allocatedResource, t)) && rv(sn.occupiedResource, t) == old(rv(sn.occupiedResource, t)) - (removed.foreign ? rv(removed.allocatedResource, t) : 0))
+//@   ensures[absent] removed == nil ==> (forall t Key :: rv(sn.availableResource, t) == old(rv(sn.availableResource, t)) && rv(sn.allocatedResource, t) == old(rv(sn.allocatedResource, t)) && rv(sn.occupiedResource, t) == old(rv(sn.occupiedResource, t)))
+
+// placeholder swap on the same node: usage moves by delta, the identity holds
+//@ func (sn *Node) ReplaceAllocation(allocationKey string, replace *Allocation, delta *resources.Resource)
+//@   props C01 C06
+//@   mode nopanic=off
+//@   requires inv(sn) && sepN(sn, delta) && mag(delta)
+//@   assigns sn.allocations[*], sn.allocatedResource.Resources[*], sn.availableResource.Resources[*], replace.placeholderCreateTime, replace.placeholderUsed
+//@   ensures inv(sn)
+//@   ensures[booked] forall t Key :: rv(sn.allocatedResource, t) == old(rv(sn.allocatedResource, t)) + rv(delta, t) && rv(sn.availableResource, t) == old(rv(sn.availableResource, t)) - rv(delta, t)
+//@   ensures[swapped] sn.allocations[replace.allocationKey] == replace && (allocationKey != replace.allocationKey ==> !(allocationKey in sn.allocations))
+
+//@ func (sn *Node) UpdateForeignAllocation(alloc *Allocation) (prev *Allocation)
+//@   props C01
+//@   mode nopanic=off
+//@   requires inv(sn) && okR(alloc.allocatedResource) && sepN(sn, alloc.allocatedResource) && mag(alloc.allocatedResource)
+//@   requires forall k string :: sn.allocations[k] != nil ==> okR(sn.allocations[k].allocatedResource) && sepN(sn, sn.allocations[k].allocatedResource)
+//@   assigns sn.allocations[*], sn.occupiedResource.Resources[*], sn.availableResource
+//@   ensures inv(sn)
+//@   ensures[found] prev == old(sn.allocations[alloc.allocationKey])
+//@   ensures[booked] prev != nil ==> (forall t Key :: rv(sn.occupiedResource, t) == old(rv(sn.occupiedResource, t)) + rv(alloc.allocatedResource, t) - old(rv(prev.allocatedResource, t)))
+
+//@ func (sn *Node) CanAllocate(res *resources.Resource) (ok bool)
+//@   props C01
+//@   pure
+//@   mode nopanic=off
+//@   ensures ok <==> (forall t Key :: has(res, t) ==> rv(res, t) <= posv(rv(sn.availableResource, t)))
+
+//@ func (sn *Node) FitInNode(resRequest *resources.Resource) (ok bool)
+//@   props C01
+//@   pure
+//@   mode nopanic=off
+//@   ensures ok <==> (forall t Key :: has(resRequest, t) ==> rv(resRequest, t) <= posv(rv(sn.totalResource, t)))
+
+//@ func (sn *Node) IsReserved() (r bool)
+//@   props C01 C09
+//@   pure
+//@   mode nopanic=off
+//@   ensures r == (len(sn.reservations) > 0)
+
+//@ func (sn *Node) isReservedForAllocation(key string) (r bool)
+//@   props C01 C09
+//@   pure
+//@   mode nopanic=off
+//@   ensures r == (key != "" && sn.reservations[key] != nil)
+
+// the pre-check of the bind gate: positive request, node not reserved for a different ask, fits in what is available
+//@ func (sn *Node) preAllocateCheck(res *resources.Resource, allocationKey string) (ok bool)
+//@   props C01 C09
+//@   pure
+//@   mode nopanic=off
+//@   ensures[positive] ok ==> (forall t Key :: rv(res, t) >= 0) && (exists t Key :: rv(res, t) > 0)
+//@   ensures[reserved] ok ==> len(sn.reservations) == 0 || (allocationKey != "" && sn.reservations[allocationKey] != nil)
+//@   ensures[fits] ok ==> (forall t Key :: has(res, t) ==> rv(res, t) <= posv(rv(sn.availableResource, t)))
